@@ -27,13 +27,14 @@ def key_of(xml, cfg):
     return h(xml + "\0" + json.dumps(cfg, sort_keys=True))
 
 
-def table_event(key, resp, with_err=False):
+def table_event(key, resp, with_err=False, mask_local_id=False):
     """with_err: the error text is part of the observation (C06: the error is a function
     of input and configuration too); across front-ends only the verdict is comparable"""
     st = "ok" if resp["status"] == "ok" else "fail"
     body = resp.get("out") if st == "ok" else None
-    if body and "svgdx-" in body:
-        # the randomised id of local styles is the one permitted variation
+    if mask_local_id and body and "svgdx-" in body:
+        # the randomised id of local styles is the one permitted variation - where local styles
+        # are requested (the caller says so)
         body = re.sub(r"svgdx-[0-9a-f]{8}", "svgdx-XXXXXXXX", body)
     hh = h(body) if st == "ok" else (h(resp.get("err") or "") if with_err else "-")
     return {"e": "table", "key": key, "status": st, "hash": hh, "empty": bool(st == "ok" and body == "")}
